@@ -3,6 +3,7 @@ import raftfamily
 import c19
 import rsmchecks
 import logstore
+import c12
 
 CHECKS = {}
 CHECKS["RAFT"] = raftfamily.check_all
@@ -12,6 +13,7 @@ CHECKS["C19"] = c19.check
 CHECKS["C05"] = rsmchecks.check_c05
 CHECKS["C08"] = rsmchecks.check_c08
 
+CHECKS["C12"] = c12.check
 CHECKS["C09"] = logstore.check_c09
 CHECKS["C10"] = logstore.check_c10
 
